@@ -2,7 +2,7 @@
 import kcp_common as K
 
 META = {
-    "enabled": False,
+    "enabled": True,
     "engine": "kcp",
     "technique": "Coq invariant proof of the output-size bound over all call sequences incl. SetMtu at any point; differential replay + size monitors",
     "level_text": "Theorem over every operation sequence (SetMtu with any integer at any point included): every datagram handed to the output callback is non-empty and at most mtu bytes, an accepted SetMtu value re-establishes the invariant (so it is honoured from then on without fault) and a refused one changes nothing; the refusal condition is characterised exactly. Tied to kcp.go by differential replay of histories with SetMtu calls (growing, shrinking, out-of-range, with data queued and in flight) and by a size monitor on every callback invocation.",
